@@ -47,6 +47,12 @@ class Rewriter(ast.NodeTransformer):
             return ast.Call(ast.Name("_sx_get", ast.Load()), [f.value] + node.args, [])
         return node
 
+    def visit_Name(self, node):
+        # a built-in passed as a value (map(ord, text), key=len, ...) must be the modelled one too
+        if isinstance(node.ctx, ast.Load) and node.id in BUILTIN_MAP and node.id not in self.shadowed and node.id in ("ord", "chr", "len", "hex", "min", "max", "sum", "divmod"):
+            return ast.copy_location(ast.Name(BUILTIN_MAP[node.id], ast.Load()), node)
+        return node
+
     def visit_Subscript(self, node):
         self.generic_visit(node)
         if isinstance(node.ctx, ast.Load) and not isinstance(node.slice, ast.Slice):
